@@ -399,7 +399,7 @@ class InterpAkima(InterpAlgorithm):
 
         bpos = np.atleast_1d((m2 * w2 + m3 * w31) / (w2 + w31))
         if compute_local_train:
-            if len(m2.shape) > 1:
+            if len(values.shape) > 1:
 
                 w2n = w2[..., np.newaxis]
                 w31n = w31[..., np.newaxis]
@@ -445,7 +445,7 @@ class InterpAkima(InterpAlgorithm):
 
         bp1pos = np.atleast_1d((m3 * w32 + m4 * w4) / (w32 + w4))
         if compute_local_train:
-            if len(m2.shape) > 1:
+            if len(values.shape) > 1:
 
                 w32n = w32[..., np.newaxis]
                 w4n = w4[..., np.newaxis]
@@ -609,7 +609,7 @@ class InterpAkima(InterpAlgorithm):
                             bpos * (dw2_dv + dw3_dv)) / \
                     (w2 + w31)
 
-            if nx > 2:
+            if nx > 2 or len(val3.shape) == 0:
 
                 if len(val3.shape) == 0:
                     if len(jj1[0]) > 0:
@@ -671,7 +671,7 @@ class InterpAkima(InterpAlgorithm):
                               bp1pos * (dw3_dv + dw4_dv)) / \
                     (w32 + w4)
 
-            if nx > 2:
+            if nx > 2 or len(val3.shape) == 0:
 
                 if len(val3.shape) == 0:
                     if len(jj2[0]) > 0:
